@@ -39,7 +39,7 @@ CLAIMED: dict[str, tuple[str, str, str, str]] = {
     "C07": (
         "Lean 4 proof of the white-box simplifier model (mutual fuel recursion with explicit detect_recursion stack): refinement to an abstract leaf semantics, leaf facts discharged per fragment + structural differential correspondence (model vs real intersect/union/invert) + truth oracle on environment grids",
         "Machine-checked: intersect/union/invert, intersection()/union(), MultiMarker.of/MarkerUnion.of incl. the `while old != new` fix-point loop, intersect_simplify/union_simplify, cnf/dnf and the RecursionError fallbacks are truth-preserving for EVERY fuel, stack, operand and environment relative to two leaf facts (marker equality => equal truth; a successful _merge_single_markers is the exact conjunction/disjunction); these facts are DISCHARGED, so that `intersect_union_sound_full`, `invert_sound_full`, `empty_any_full` hold with no unproved hypothesis on the full comparison-operator domain: string variables (==/!= on plain values incl. values such as inotify/interix, and the atomic multi/union leaves merges build), extra, python_version \"X.Y\", python_full_version \"X.Y.Z\" incl. the python_version<->python_full_version pairing under python_version = major.minor, platform_release release numbers; inversion additionally on in/not in lists and reversed operands via agreement with the reference evaluator. The universal statement is proved FALSE on the known finding (`not in` united with `not in` -> Any). The model mirrors markers.py branch by branch and agrees structurally (tree, text, flags, truth vectors, error class) with the real code on every generated pair, incl. the complete python_version x python_version operator/adjacent-value universe.",
-        TB + "No unproved hypothesis on: string variables with ==, !=, \"v\" in, \"v\" not in outside the decidable class ncClash (proved exact: notin_union_boundary = the known finding); extra ==/!=; python_version X.Y with the seven operators incl. ~= and in/not in lists of X.Y tokens (lists only on markers without python_full_version leaves); python_full_version X.Y.Z with the seven operators incl. the pairing; platform_release release numbers; final-release interpreters. Outside (listed with one witness per class in the doc comment of C07_leaf_facts_full_statement): other literal shapes, lists on python_full_version, ===. A call-history stream runs respelled / exchanged operands back to back without resetting the memo tables (the other streams reset them per case; C20 owns cache transparency); per-request clocks on both sides (counted, never a verdict).",
+        TB + "No unproved hypothesis on: string variables with ==, !=, \"v\" in, \"v\" not in outside the decidable class ncClash (proved exact: notin_union_boundary = the known finding); extra ==/!=; python_version X.Y with the seven operators incl. ~= and in/not in lists of X.Y tokens; python_full_version X.Y.Z with the seven operators and in/not in lists of X.Y (= X.Y.*, poetry's reading) and X.Y.Z tokens; the python_version/python_full_version pairing with lists on either side (`PairCtxM`: a merged list marker is returned as merged since repo fix d9aa4ee); platform_release release numbers; final-release interpreters (`intersect_union_sound_lists_both`, `invert_sound_lists_both`). Outside (listed with one witness per class in the doc comment of C07_leaf_facts_full_statement): other literal shapes, list tokens with one or four+ components, ===, inversion of extra atomic unions with repeated values. A call-history stream runs respelled / exchanged operands back to back without resetting the memo tables (the other streams reset them per case; C20 owns cache transparency); per-request clocks on both sides (counted, never a verdict).",
         "DESIGN.md §4 C07",
     ),
     "C10": (
@@ -62,7 +62,7 @@ CLAIMED: dict[str, tuple[str, str, str, str]] = {
     "C13": (
         "Lean 4 proof: unconditional CNF/DNF shape theorems, character-level print/parse round trip, meaning preservation on the full comparison-operator domain + structural differential correspondence + re-parse by poetry-core and by the reference parser",
         "Machine-checked, unconditional (every fuel, stack, input): cnf/dnf results have the promised shape (non-empty compounds); `_merge_single_markers` yields Any/Empty/leaf; character-level `parseText (text t) = t` for all lexable trees and the token-level round trip; `__str__` is the text of a grammar tree that `_compact_markers` reads back with the same meaning (parenthesisation vs precedence). On the full comparison-operator domain with quotable values (`print_parse_full`, `algebra_print_parse_full`): results of intersect/union print, parse back and rebuild with the same meaning, and cnf/dnf preserve meaning (C07's discharged leaf facts); agreement with Spec.Pep508 through C06. Every run re-parses every result text by poetry-core and by packaging and re-evaluates it on the environment sample.",
-        TB + "The domain now includes ~= leaves (print_parse_fullC, algebra_print_parse_fullC). Outside it the meaning theorems stay relative to the leaf facts; a call-history stream runs respelled operands back to back without resetting the memo tables; per-request clocks (counted).",
+        TB + "The domain now includes ~= leaves, the four-operator string fragment and version lists on both python variables (`print_parse_four_operators`, `print_parse_lists_both`), and ==/!= values that hold a double quote or a backslash and no single quote, printed in single quotes (`print_parse_quotes`, `print_parse_chars_quotes`; reversed-operand values stay quote-free). Every result text is also EVALUATED by the reference, not only accepted. Outside the domain the meaning theorems stay relative to the leaf facts; listed classes pfv-list-two-component, notin-union-notin-any, empty-literal-misread; a call-history stream runs respelled operands back to back without resetting the memo tables; per-request clocks (counted).",
         "DESIGN.md §4 C13",
     ),
     "C17": (
@@ -74,7 +74,7 @@ CLAIMED: dict[str, tuple[str, str, str, str]] = {
     "C19": (
         "Lean 4 proof of error classification and printability over executable models of the parsers + differential token-level fuzz against the real code (six grammars + Factory.validate) + regex stress per pattern source",
         "Machine-checked for EVERY string: Version.parse, the string/extra constraint parsers and the version-constraint parser (any number of `,` and `||`, local labels included) fail only with the documented ValueError, and what they return prints (no IndexError/AssertionError anywhere in parse, intersect, VersionUnion.of, `_inverted`, wildcard printing \u2014 the model's walk fuel is proved sufficient); the marker grammar recogniser fails only with the syntax error; marker leaves fail only with ValueError; all 16 functions of the simplifier block can only fail with fuel/recursion or a leaf-merge error, the AttributeError/IndexError/KeyError/TypeError/RuntimeError branches are dead; parse_marker / Requirement / create_from_pep_508 are classified up to one named residue. Front ends (re, lark) are tied to the models by correspondence (accept/reject, error class, normal text on ~46k fuzz strings per quick run; 2M in thorough); every regex constant of the parser modules is pumped for super-linear back-tracking; Factory.validate is covered by the real-code oracle on type- and key-mutated mappings.",
-        TB + "The public entry points are classified without residue: parse_marker (parseMarkerTop) fails only with syntax/value errors (plus the model's own fuel/unmodelled), Requirement and create_from_pep_508 likewise (the latter may leak RecursionError from the un-guarded marker setter: allowed by the model, no input known); the simplifier preserves the leaf invariant (python_version leaves are single markers over good constraints), so its AssertionError/AttributeError branches and the assertion of convert_markers are dead. Open: `.syntax` is not split into grammar error on the input vs lark error on a re-parsed printed marker text. Eleven defects fixed in /repo; hang-like classes (git URL regexes, 60-level random and/or nesting) and one schema gap are known findings.",
+        TB + "The public entry points are classified without residue: parse_marker (parseMarkerTop) fails only with syntax/value errors (plus the model's own fuel/unmodelled), Requirement and create_from_pep_508 likewise (the latter may leak RecursionError from the un-guarded marker setter: allowed by the model, no input known); the simplifier preserves the leaf invariant (python_version leaves are single markers over good constraints), so its AssertionError/AttributeError branches and the assertion of convert_markers are dead. `invert` never raises lark's error on any grammar-accepted text without swapped items and `~=` (`invert_no_syntax_grammar`, no hypothesis on values — the defect class of repo fixes 3046ca3 / 7b51c5a, whose two former counterexamples are regression theorems); for the simplifier the same is reduced to one named hypothesis (`MergeNoSyntax`). The re-read of printed texts is a counter in this check (it is C13's clause). Eleven defects fixed in /repo; hang-like classes (git URL regexes, 60-level random and/or nesting) and one schema gap are known findings.",
         "DESIGN.md §4 C19",
     ),
     "C08": (
